@@ -15,6 +15,7 @@ mod plan;
 mod probe;
 mod reffmt;
 mod rt;
+mod sc_client;
 mod sc_holder;
 mod sc_mutex;
 mod sc_queue;
@@ -102,6 +103,9 @@ fn run_in_child(spec: &Spec) -> common::Report {
 }
 
 fn run_spec(spec: &Spec) -> common::Report {
+    writer::LENS.with(|l| {
+        *l.borrow_mut() = spec.kv.get("lens").map(|s| s.split(',').filter_map(|x| x.parse().ok()).collect());
+    });
     match spec.engine.as_str() {
         "probe" | "sweep" => run_in_child(spec),
         "wbfs" => writer::bfs(spec.usize("cap", 8), spec.end(), spec.usize("F", 0), spec.usize("budget", 50_000_000) as u64),
@@ -123,6 +127,7 @@ fn run_spec(spec: &Spec) -> common::Report {
         "mutex" => sc_mutex::run(spec),
         "qflush" => sc_mutex::run_qflush(spec),
         "stats" => sc_stats::run(spec),
+        "client2" => sc_client::run(spec),
         "sock-unbuf" => sock::unbuffered(spec),
         "sock-buf" => sock::buffered(spec),
         "sock-faults" => sock::stats_faults(spec),
@@ -144,6 +149,7 @@ fn scenario_of(spec: &Spec) -> Option<Box<dyn explore::Scenario>> {
         "mutex" => Some(Box::new(sc_mutex::scenario(spec))),
         "qflush" => Some(Box::new(sc_mutex::qflush_scenario(spec))),
         "stats" => Some(Box::new(sc_stats::scenario(spec))),
+        "client2" => Some(Box::new(sc_client::scenario(spec))),
         _ => None,
     }
 }
